@@ -160,6 +160,17 @@ def ser(op):
         return '(OLeaf (LDist %s))' % C.qs(vals(op.vector))
     if n.endswith('_op') and n[:-3] in T.UFN and t.__module__ == 'odl.ufunc_ops.ufunc_ops':
         return '(OLeaf (LUf U%s %d))' % (n[:-3], op.domain.size)
+    if n in ('PointwiseNorm', 'PointwiseInner') and t.__module__ == 'odl.operator.tensor_ops':
+        vf = op.domain
+        if not (isinstance(vf, odl.ProductSpace) and vf.is_power_space and vf[0].ndim == 1 and vf.is_real):
+            raise Unsupported('pointwise operator on an unsupported vector-field space')
+        w = C.qs([float(v) for v in op.weights])
+        if n == 'PointwiseNorm':
+            p = float(op.exponent)
+            if p not in (1.0, 2.0):
+                raise Unsupported('PointwiseNorm exponent %r' % p)
+            return '(OLeaf (LPwNorm %d %d %s))' % (vf[0].size, int(p), w)
+        return '(OLeaf (LPwInner %d %s %s))' % (vf[0].size, w, C.qs(vals(op.vecfield)))
     if t is Cubic:
         return '(OLeaf (LAbs %d))' % op.domain.size
     if t is CubicDeriv:
@@ -196,6 +207,8 @@ class Gen(object):
     def pspace(self, k=None):
         k = k or self.rng.choice([1, 2, 2, 3])
         key = tuple(self.rng.choice([1, 2, 3]) for _ in range(k))
+        if self.rng.random() < 0.35:
+            key = (key[0],) * k
         if key not in self._P:
             self._P[key] = self.odl.ProductSpace(*[self.V[n] for n in key])
         return self._P[key]
@@ -245,6 +258,13 @@ class Gen(object):
             if self.is_f(ran):
                 mid = self.vspace()
                 return O.OperatorComp(self.leaf(mid, ran), self.leaf(dom, mid))
+            if all(a == ran for a in dom) and rng.random() < 0.5:
+                # vector field space X^k -> X: point-wise 1-norm (|.| is rational) or point-wise inner product
+                vfs = odl.ProductSpace(ran, len(dom))
+                w = rng.choice([None, 2.0, [rng.choice([0.5, 1.0, 3.0]) for _ in range(len(dom))]])
+                if rng.random() < 0.6:
+                    return odl.PointwiseNorm(vfs, exponent=1, weighting=w)
+                return odl.PointwiseInner(vfs, self.el(vfs), weighting=w)
             return PS.ReductionOperator(*[self.leaf(a, ran) for a in dom])
         if self.is_f(dom) and self.is_f(ran):
             k = rng.choice(['scale', 'pow', 'mul', 'zero', 'ident'])
@@ -564,6 +584,35 @@ def norm_cases(rng, tier):
                     continue
                 term, info = r
                 cs.add(term, info, (term,))
+    # PointwiseNorm, exponent 2 (and 1): component fields whose weighted squares sum to squares at every index
+    PW = [([[3.0, 6.0], [4.0, 8.0]], [1.0, 1.0]), ([[3.0, 6.0], [2.0, 4.0]], [1.0, 4.0]),
+          ([[3.0, 5.0, -8.0], [4.0, 12.0, 15.0]], [1.0, 1.0]), ([[2.0, -3.0]], [1.0]), ([[1.0, -2.0]], [4.0]),
+          ([[1.0], [2.0], [2.0]], [1.0, 1.0, 1.0]), ([[2.0, 1.0], [3.0, 2.0], [6.0, 2.0]], [1.0, 1.0, 1.0]),
+          ([[0.0, 3.0], [0.0, 4.0]], [1.0, 1.0])]      # N = 0 at index 0: the code leaves that entry alone
+    for fs, w in PW:
+        k, nn = len(fs), len(fs[0])
+        B = odl.rn(nn)
+        vfs = odl.ProductSpace(B, k)
+        x = vfs.element(fs)
+        for _ in range(reps):
+            for wt_ in (w, None if all(v == 1.0 for v in w) else w):
+                for p in (2, 1):
+                    if p == 1 and any(v == 0.0 for f in fs for v in f):
+                        continue
+                    N = odl.PointwiseNorm(vfs, exponent=p, weighting=wt_)
+                    s_ = rng.choice([2.0, -3.0, 0.5])
+                    ops = [N, O.OperatorLeftScalarMult(N, s_), O.OperatorRightScalarMult(N, s_),
+                           O.OperatorComp(odl.ufunc_ops.square(B), N),
+                           O.OperatorPointwiseProduct(N, odl.PointwiseInner(vfs, vfs.element([rvec(rng, nn) for _ in range(k)]))),
+                           O.OperatorComp(N, odl.BroadcastOperator(*[D.ScalingOperator(B, float(i + 1)) for i in range(k)]))
+                           if False else O.OperatorSum(N, N)]
+                    for op in ops:
+                        d = vfs.element([rvec(rng, nn) for _ in range(k)])
+                        r = run_case(op, x, d)
+                        if r is None:
+                            continue
+                        term, info = r
+                        cs.add(term, info, (term,))
     return cs
 
 
